@@ -1,6 +1,7 @@
 """C13 - UDP sender: bounded retries, exact timeout behaviour, no socket left open."""
 from __future__ import annotations
 
+import asyncio
 import itertools
 from typing import Any, Dict, List, Optional, Tuple
 
@@ -19,7 +20,8 @@ RULE = ("All %d sequences of per-attempt outcomes from {reply in time, no reply,
         "send queue full (EAGAIN: the transport buffers the datagram beyond the attempt's timeout), ICMP/OS error (port unreachable = ConnectionRefusedError, host/net unreachable and message-too-long = plain OSError), "
         "fatal socket error} of length = retries for retries in 1..4 are enumerated; quick runs each with every timeout in "
         "{1, 2, 6, 0.5} s (latencies and entry point seeded), thorough runs each with every timeout in {1, 2, 6, 0.5} s and 8 latency seeds, "
-        "half through send_udp directly and half through Client.get; in half of the runs the wall clock (time.time) jumps "
+        "half through send_udp directly and half through Client.get; socket creation may take time, the peer may be an IPv6 "
+        "host, the caller may cancel the call at an arbitrary instant; in half of the runs the wall clock (time.time) jumps "
         "forwards/backwards by 30 s .. 1 day at some of its readings. A scripted peer on the simulated network produces "
         "the outcome of attempt k. Oracle on the simulated transport under virtual time: sendto count <= retries, identical "
         "payloads, attempt k+1 exactly `timeout` virtual seconds after an unanswered attempt k, the first reply's bytes are "
@@ -27,12 +29,15 @@ RULE = ("All %d sequences of per-attempt outcomes from {reply in time, no reply,
         "and after the call every socket it opened is closed. Non-trivial: every run; distinct = distinct (sequence, "
         "timeout, latency seed, entry point)." % len(SEQS))
 ASSUMPTIONS = [
+    "a call cancelled by its caller while a datagram is still waiting in the transport buffer (send queue full) may keep that "
+    "socket until the queue drains (asyncio's close() semantics); it must be closed once it has drained",
     "for ICMP/OS errors and fatal socket errors the property does not say whether to retry or propagate: only the "
     "transmission bound, payload identity and the socket clause are checked on those paths",
     "real loopback sockets (/proc/self/fd) are outside deterministic simulation; they are used only by `selftest fidelity`",
 ]
 PROBES = ["timeout_raised", "late_reply_dropped", "duplicate_reply", "icmp_error", "fatal_error", "reply_on_last_attempt",
-          "via_client_get", "error_then_retry_or_raise", "wall_clock_jumps", "send_blocked", "empty_reply"]
+          "via_client_get", "error_then_retry_or_raise", "wall_clock_jumps", "send_blocked", "empty_reply", "slow_socket_setup", "ipv6_peer",
+          "cancelled_by_caller"]
 shrink_lists: List[tuple] = []
 
 
@@ -65,7 +70,12 @@ def plan_for(tier: str, seed: int, i: int) -> dict:
     if crng.random() < 0.5:
         clock = {"mode": "jumping", "epoch": 1_700_000_000,
                  "jumps": [[k, crng.choice([30, 3600, 86400, -3600, -30])] for k in sorted(crng.sample(range(0, 8), crng.randrange(1, 4)))]}
-    return {"prop": ID, "retries": retries, "seq": seq, "timeout": timeout, "latseed": latseed, "via": via, "clock": clock}
+    # socket creation may take time (per attempt), the peer may be an IPv6 host, and the caller may give up (cancel the
+    # call) at an arbitrary instant
+    setup = [crng.choice([0, 0, 0, 10, int(256 * timeout)]) for _ in range(retries)]
+    cancel_at = crng.choice([1, 5, int(1024 * timeout) + 3, int(1024 * timeout * retries) - 2]) if crng.random() < 0.1 else None
+    return {"prop": ID, "retries": retries, "seq": seq, "timeout": timeout, "latseed": latseed, "via": via, "clock": clock,
+            "setup_ticks": setup, "ipv6": crng.random() < 0.2, "cancel_at": cancel_at}
 
 
 class ScriptedPeer:
@@ -143,8 +153,17 @@ def execute(plan: dict) -> dict:
     from ipaddress import ip_address
     w = World(clock=plan.get("clock"))
     peer = ScriptedPeer(w, plan)
-    w.net.add_agent(("10.0.0.2", 161), peer)
+    peer_ip = "fd00::2" if plan.get("ipv6") else "10.0.0.2"
+    w.net.add_agent((peer_ip, 161), peer)
     w.net.send_gate = peer.on_send
+    setup = list(plan.get("setup_ticks") or [])
+    n_endpoints = [0]
+
+    def endpoint_delay() -> float:
+        k = n_endpoints[0]
+        n_endpoints[0] += 1
+        return (setup[k] if k < len(setup) else 0) * TICK
+    w.net.endpoint_delay = endpoint_delay
     retries, timeout = plan["retries"], plan["timeout"]
     request = b"\x30\x10request-payload-XYZ"
     res = exc = None
@@ -153,13 +172,13 @@ def execute(plan: dict) -> dict:
     async def direct() -> Any:
         nonlocal t_end
         try:
-            return await send_udp(Endpoint(ip_address("10.0.0.2"), 161), request, timeout=timeout, retries=retries)
+            return await send_udp(Endpoint(ip_address(peer_ip), 161), request, timeout=timeout, retries=retries)
         finally:
             t_end = w.loop.time()
 
     client = None
     if plan["via"] == "client":
-        client = w.client({"version": "v2c", "community": "public"}, timeout=timeout, retries=retries)
+        client = w.client({"version": "v2c", "community": "public"}, addr=(peer_ip, 161), timeout=timeout, retries=retries)
 
     async def via_client() -> Any:
         nonlocal t_end
@@ -168,11 +187,25 @@ def execute(plan: dict) -> dict:
         finally:
             t_end = w.loop.time()
 
+    cancelled = False
+
+    async def abandoned(coro: Any) -> Any:
+        return await asyncio.wait_for(coro, plan["cancel_at"] * TICK)
     try:
-        res = w.run(direct() if client is None else via_client())
+        coro = direct() if client is None else via_client()
+        res = w.run(abandoned(coro) if plan.get("cancel_at") else coro)
+    except asyncio.TimeoutError:
+        cancelled = True        # the caller gave up: the call was cancelled wherever it happened to be
     except Exception as e:  # noqa: BLE001
         exc = e
     w.settle()
+    if cancelled and "B" in plan["seq"][:len(peer.attempts)]:
+        # a cancelled call closes its socket with close(): asyncio keeps a socket whose datagram is still waiting in
+        # the transport buffer until the send queue drains - let it drain before looking at the socket table
+        async def drain() -> None:
+            await asyncio.sleep(plan["timeout"] * (plan["retries"] + 1) + 2)
+        w.run(drain())
+        w.settle()
     violation = None
 
     def fail(clause: str, d: str) -> None:
@@ -209,9 +242,13 @@ def execute(plan: dict) -> dict:
         if atts[k - 1]["outcome"] in "NLB":
             # c2a latency is constant (1 tick), so arrival spacing equals transmission spacing
             gap = atts[k]["t"] - atts[k - 1]["t"]
-            if gap != timeout:
-                fail("retry-spacing", "attempt %d was sent %.6f s after attempt %d (timeout %s)" % (k + 1, gap, k, timeout))
-    if not error_seen:
+            want_gap = timeout + (setup[k] if k < len(setup) else 0) * TICK
+            if gap != want_gap:
+                fail("retry-spacing", "attempt %d was sent %.6f s after attempt %d (timeout %s, socket setup %.6f s)" % (
+                    k + 1, gap, k, timeout, want_gap - timeout))
+    if cancelled:
+        pass        # no result to judge: only the transmission bound, payload identity and the socket clause apply
+    elif not error_seen:
         if answered_at is not None:
             a = atts[answered_at]
             t_reply, rb = a["replies"][0]
@@ -232,8 +269,9 @@ def execute(plan: dict) -> dict:
             else:
                 if len(sends) != retries:
                     fail("wrong-attempt-count", "Timeout after %d transmissions (retries=%d)" % (len(sends), retries))
-                if t_end != retries * timeout:
-                    fail("timeout-instant", "Timeout raised at t=%.6f, expected %s" % (t_end, retries * timeout))
+                want_end = retries * timeout + sum(setup[:retries]) * TICK
+                if t_end != want_end:
+                    fail("timeout-instant", "Timeout raised at t=%.6f, expected %s" % (t_end, want_end))
     # replies never cross sockets: each datagram delivered to a client socket answers that socket's own port
     # (guaranteed by addressing in the simulated network; checked through the open-port log)
     open_after = w.net.open_sockets()
@@ -247,7 +285,8 @@ def execute(plan: dict) -> dict:
         "reply_on_last_attempt": int(answered_at is not None and answered_at == retries - 1),
         "via_client_get": int(client is not None), "error_then_retry_or_raise": int(error_seen),
         "wall_clock_jumps": int(plan.get("clock", {}).get("mode") == "jumping"),
-        "send_blocked": int("B" in seq[:len(atts)]),
+        "send_blocked": int("B" in seq[:len(atts)]), "slow_socket_setup": int(any(setup[:max(1, len(atts))])),
+        "ipv6_peer": int(bool(plan.get("ipv6"))), "cancelled_by_caller": int(cancelled),
         "empty_reply": int(answered_at is not None and atts[answered_at]["replies"][0][1] == b""),
     }
     counters = dict(w.net.counters)
@@ -279,6 +318,12 @@ def simplify(plan: dict):
             p = dict(plan); p["seq"] = plan["seq"][:k] + plan["seq"][k + 1:]; p["retries"] = plan["retries"] - 1; yield p
     if plan["timeout"] != 1:
         p = dict(plan); p["timeout"] = 1; yield p
+    if plan.get("cancel_at"):
+        p = dict(plan); p["cancel_at"] = None; yield p
+    if plan.get("ipv6"):
+        p = dict(plan); p["ipv6"] = False; yield p
+    if any(plan.get("setup_ticks") or []):
+        p = dict(plan); p["setup_ticks"] = [0] * len(plan["setup_ticks"]); yield p
     if plan.get("clock", {}).get("mode") == "jumping":
         p = dict(plan); p["clock"] = {"mode": "tied", "epoch": 1_700_000_000}; yield p
 
